@@ -92,7 +92,8 @@ extern "C" void selftest_pip() {
   Path64 p{Point64(0, 0), Point64(10, 5), Point64(5, 10), Point64(-10, 0)};
   out_i64((int)PointInPolygon(Point64(-5, 0), p));
   out_f64(Area(sq)); out_f64(Area(p));
-  Path64 big{Point64(-LIM, -LIM), Point64(LIM, -LIM + 1), Point64((int64_t)3, LIM)};
+  const int64_t B = (int64_t)1 << 22;
+  Path64 big{Point64(-B, -B), Point64(B, -B + 1), Point64((int64_t)3, B)};
   out_f64(Area(big)); out_i64((int)PointInPolygon(Point64(0, 0), big));
 }
 extern "C" void harness_pip_dbg() {
